@@ -491,4 +491,80 @@ example : ∃ cmd, httpieCommand { auditReq with body := .none } = some cmd ∧
 example : curlCommand false none { auditReq with body := .binary } = none ∧
     hasCtl [97, 1, 98] = true := by decide
 
+
+/-! ## round 6 owner fixes: every header reaches the wire (empty values), curl's and httpie's reading of a header argument -/
+
+private theorem tw8_app (p : UInt8 → Bool) : ∀ (l : Bytes) (c : UInt8) (r : Bytes), l.all p = true → p c = false →
+    (l ++ c :: r).takeWhile p = l ∧ (l ++ c :: r).dropWhile p = c :: r := by
+  intro l
+  induction l with
+  | nil => intro c r _ hc; simp [List.takeWhile, List.dropWhile, hc]
+  | cons x xs ih =>
+    intro c r hl hc
+    simp only [List.all_cons, Bool.and_eq_true] at hl
+    obtain ⟨h1, h2⟩ := ih c r hl.2 hc
+    simp [List.takeWhile, List.dropWhile, hl.1, h1, h2]
+
+private theorem dw8_nil (p : UInt8 → Bool) : ∀ (l : Bytes), l.dropWhile p = [] → ∀ a ∈ l, p a = true := by
+  intro l
+  induction l with
+  | nil => intro _ a ha; cases ha
+  | cons x xs ih =>
+    intro h a ha
+    by_cases hx : p x = true
+    · simp [List.dropWhile, hx] at h
+      rcases List.mem_cons.mp ha with e | e
+      · rw [e]; exact hx
+      · exact ih h a e
+    · simp [List.dropWhile, hx] at h
+
+private theorem curlSpace_pyWs : ∀ n : Fin 256, isCurlSpace (UInt8.ofNat n.val) = true → isPyWs (UInt8.ofNat n.val) = true := by
+  decide +kernel
+
+/-- **no header is lost on the way to the wire (curl)**: for every header whose name contains neither `:` nor `;`, curl puts
+    a line on the wire for the `-H` argument the exporter writes — `name: value` verbatim when the value is not blank,
+    `name:` when it is empty or blank (written `name;`). -/
+theorem curl_sends_every_header (h : Bytes × Bytes)
+    (hc : h.1.all (fun c => c != 58) = true) (hs : h.1.all (fun c => c != 59) = true) :
+    sentHeader (headerArg h) =
+      some (if h.2.all isPyWs then h.1 ++ [58] else h.1 ++ [58, 32] ++ h.2) := by
+  unfold headerArg sentHeader
+  by_cases hb : h.2.all isPyWs = true
+  · simp only [hb, if_true]
+    have hno : (h.1 ++ [59]).contains 58 = false := by
+      simp only [List.contains_eq_any_beq, List.any_append, List.any_cons, List.any_nil, Bool.or_false, Bool.or_eq_false_iff]
+      refine ⟨?_, by decide⟩
+      simp only [List.any_eq_false, beq_iff_eq]
+      intro x hx e
+      have := (List.all_eq_true.mp hc) x hx
+      simp [e] at this
+    obtain ⟨t, d⟩ := tw8_app (fun c => c != 59) h.1 59 [] hs (by decide)
+    have h58 : (58 : UInt8) ∉ h.1 := by
+      intro hm
+      have := (List.all_eq_true.mp hc) 58 hm
+      simp at this
+    simp [hno, t, d, h58]
+  · simp only [hb, Bool.false_eq_true, if_false]
+    have hyes : (h.1 ++ [58, 32] ++ h.2).contains 58 = true := by simp [List.contains_eq_any_beq]
+    obtain ⟨t, d⟩ := tw8_app (fun c => c != 58) h.1 58 (32 :: h.2) hc (by decide)
+    have e : h.1 ++ [58, 32] ++ h.2 = h.1 ++ 58 :: 32 :: h.2 := by simp
+    have hne : (h.2.dropWhile isCurlSpace) ≠ [] := by
+      intro hnil
+      have hall : ∀ a ∈ h.2, isCurlSpace a = true := dw8_nil isCurlSpace h.2 hnil
+      apply hb
+      simp only [List.all_eq_true]
+      intro a ha
+      have := curlSpace_pyWs ⟨a.toNat, UInt8.toNat_lt a⟩ (by simpa using hall a ha)
+      simpa using this
+    rw [hyes, e, d]
+    simp [List.dropWhile, isCurlSpace, hne]
+
+/-- the defect fixed in /repo (0f1b16ec7): the old form `Name: ` of an empty-valued header is REMOVED by curl -/
+theorem old_empty_header_dropped_counterexample :
+    sentHeader (headerArgOld ([120, 45, 101], [])) = none ∧ sentHeader (headerArg ([120, 45, 101], [])) = some [120, 45, 101, 58] := by
+  decide
+
+example : headerArg ([120], [32, 9]) = [120, 59] ∧ headerArg ([120], [118]) = [120, 58, 32, 118] := by decide
+example : sentHeader [88, 59, 105, 100, 59] = none := by decide          -- "X;id;": a name containing ';' is outside the guard
+
 end MitmVerif.Props.C48
